@@ -26,6 +26,7 @@ def gen_streams(ctx):
         jobs.append(("occ", ["occ", 2500 if quick else 60000, k]))
     for k in range(nshard // 2):
         jobs.append(("dense", ["dense", 2500 if quick else 60000, k]))
+        jobs.append(("edge", ["edge", 2500 if quick else 60000, k]))
     cfgs = "1,3,0,11,9" if quick else "0,1,2,3,8,9,10,11,5,13"
     # exhaustive small domain, one job per configuration
     for c in cfgs.split(","):
@@ -49,8 +50,11 @@ def gen_streams(ctx):
         kinds["corpus"] = len([l for l in out if l.startswith("M ")])
         if p.returncode != 0:
             bad.append(("corpus", p.stderr.decode()[-300:]))
-    for kind, args, p in procs:
-        o, e = p.communicate()
+    # drain all jobs' pipes concurrently (see core.run_jobs)
+    from concurrent.futures import ThreadPoolExecutor
+    with ThreadPoolExecutor(max_workers=max(1, len(procs))) as ex:
+        outs = list(ex.map(lambda t: t[2].communicate(), procs))
+    for (kind, args, p), (o, e) in zip(procs, outs):
         out = o.decode().splitlines()
         lines += out
         kinds[kind] = kinds.get(kind, 0) + len([l for l in out if l.startswith("M ")])
@@ -175,7 +179,7 @@ def run_matcher_check(ctx, pid, known_filter=None):
         rule="cases = (configuration, representations, haystack, needle); each case runs 6 algorithms x (score-only, indices) x "
              "(fresh, used, poisoned matcher); streams: corpus of past failures, seeded structured random (needles drawn as subsequences/"
              "substrings/trimmed copies of the normalized haystack, then perturbed), exhaustive small domain over an 8-symbol alphabet, "
-             "occurrence-rich haystacks (the needle, near misses of it and separators concatenated), dense cases (haystacks of 6-16 characters over a tiny alphabet of mixed character classes with the needle embedded with gaps 0-2: ties between continuing a run and entering it from a gap), size-limit shapes (fixed list plus a band around the slab-fit boundary), long needles, matches starting beyond index 2^16 / 2^17; distinct non-trivial = distinct cases with non-empty haystack and needle",
+             "occurrence-rich haystacks (the needle, near misses of it and separators concatenated), dense cases (haystacks of 6-16 characters over a tiny alphabet of mixed character classes with the needle embedded with gaps 0-2: ties between continuing a run and entering it from a gap), edge-whitespace cases (a core word; the needle carries whitespace at neither, either or both ends, the haystack wraps the core — sometimes re-cased or damaged — in 0-2 whitespace characters per side, ASCII and Unicode whitespace), size-limit shapes (fixed list plus a band around the slab-fit boundary), long needles, matches starting beyond index 2^16 / 2^17; distinct non-trivial = distinct cases with non-empty haystack and needle",
         samples=[l[:300] for l in lines if l.startswith("M ")][:3] + [l for l in lines if l.startswith("X ")][:2],
         model_disagreements=len(diffs), oracle_failures=len(mine))
     ctx.assumptions += ["Rust std char::is_lowercase/is_numeric/is_alphabetic are inputs of the model",
